@@ -343,6 +343,11 @@ func (r *Runner) spoilNewestSnapshot(i int) {
 	if newest == nil || older == nil || newest.Bad || d.First() == 0 || d.First() > older.Meta.Index+1 || d.Last() < newest.Meta.Index {
 		return
 	}
+	for i := older.Meta.Index + 1; i <= newest.Meta.Index; i++ {
+		if _, ok := d.Logs[i]; !ok {
+			return // e.g. the index a user Restore burned: only the newer snapshot bridges that hole
+		}
+	}
 	newest.BadOnce = true
 	r.feat("newest-snapshot-unreadable-at-start-up")
 }
